@@ -79,7 +79,7 @@ func c08Templates(batch, nbatch int) []*gram.Grammar {
 	grp := func(mode string, k *gram.Expr) *gram.Expr {
 		return &gram.Expr{Op: "grp", Mode: mode, Kids: []*gram.Expr{k}}
 	}
-	prefixes := []string{"none", "opt", "star", "poslook", "neglook", "consume", "bracketopt", "optgroup2", "nullable-production", "nullable-chain", "nullable-then-dependent", "nonempty-group-of-nullable-production"}
+	prefixes := []string{"none", "opt", "star", "poslook", "neglook", "consume", "bracketopt", "optgroup2", "nullable-production", "nullable-chain", "nullable-then-dependent", "nonempty-group-of-nullable-production", "lookalike-production-optional-head"}
 	wrappers := []string{"bare", "paren", "optgroup", "stargroup", "look", "neg", "plusgroup", "captured-group-before"}
 	routes := []string{"direct", "viaB", "viaUnion", "viaBnullableprefix", "viaUnionOnly", "unionCycleBelowRoot", "unionRootDirect", "unionRootViaRoot", "unusedUnion"}
 	altpos := []string{"first", "second-after-single", "second-after-multi", "third"}
@@ -96,8 +96,9 @@ func c08Templates(batch, nbatch int) []*gram.Grammar {
 					A, B, C, U := id+"A", id+"B", id+"C", id+"U"
 					g := &gram.Grammar{ID: id, Root: A, Profile: gram.ProfDefault, Feat: []string{"prefix=" + pf, "wrapper=" + wr, "route=" + rt, "alt=" + ap}}
 					// the reference that closes the cycle, capturing into field fidx of its production
-					N1, N2 := id+"N1", id+"N2"
+					N1, N2, N3 := id+"N1", id+"N2", id+"N3"
 					needN := 0
+					needN3 := false
 					mkRefT := func(fields *[]gram.Field, target string) []*gram.Expr {
 						var pre []*gram.Expr
 						switch pf {
@@ -117,6 +118,11 @@ func c08Templates(batch, nbatch int) []*gram.Grammar {
 							*fields = append(*fields, gram.Field{Name: fmt.Sprintf("F%d", len(*fields)), Kind: "ptr", Target: N1})
 							pre = append(pre, grp("!", grp("", &gram.Expr{Op: "sub", Field: len(*fields) - 1})))
 							needN = 1
+						case "lookalike-production-optional-head":
+							// @@N3 with N3 = "x"? @"y": every term but the last is optional, the production still consumes a token
+							*fields = append(*fields, gram.Field{Name: fmt.Sprintf("F%d", len(*fields)), Kind: "ptr", Target: N3})
+							pre = append(pre, &gram.Expr{Op: "sub", Field: len(*fields) - 1})
+							needN3 = true
 						case "nullable-chain":
 							*fields = append(*fields, gram.Field{Name: fmt.Sprintf("F%d", len(*fields)), Kind: "ptr", Target: N2})
 							pre = append(pre, &gram.Expr{Op: "sub", Field: len(*fields) - 1})
@@ -302,6 +308,9 @@ func c08Templates(batch, nbatch int) []*gram.Grammar {
 						} else {
 							g.Prods = append(g.Prods, n1)
 						}
+					}
+					if needN3 {
+						g.Prods = append(g.Prods, &gram.Prod{Name: N3, Fields: []gram.Field{{Name: "F0", Kind: "string"}}, Expr: seq(grp("?", lit("x")), &gram.Expr{Op: "cap", Field: 0, Kids: []*gram.Expr{lit("y")}})})
 					}
 					an := gram.Analyse(g)
 					if an.BugClass() != "" {
